@@ -9,6 +9,7 @@ require (
 	github.com/grafana/carbon-relay-ng v0.0.0
 	github.com/kisielk/og-rek v0.0.0-20170405223746-ec792bc6e6aa
 	github.com/sirupsen/logrus v1.1.2-0.20181020050904-08e90462da34
+	github.com/streadway/amqp v0.0.0-20170521212453-dfe15e360485
 )
 
 require (
@@ -40,7 +41,6 @@ require (
 	github.com/pierrec/lz4 v0.0.0-20190327172049-315a67e90e41 // indirect
 	github.com/prometheus/procfs v0.0.0-20190425082905-87a4384529e0 // indirect
 	github.com/rcrowley/go-metrics v0.0.0-20181016184325-3113b8401b8a // indirect
-	github.com/streadway/amqp v0.0.0-20170521212453-dfe15e360485 // indirect
 	github.com/taylorchu/toki v0.0.0-20141019163204-20e86122596c // indirect
 	github.com/tinylib/msgp v1.1.0 // indirect
 	github.com/xdg/scram v0.0.0-20180814205039-7eeb5667e42c // indirect
